@@ -23,7 +23,7 @@ MODS_SET = ["AutoCarver.discretizers.utils.base_discretizers", "AutoCarver.carve
 MODS_POOL = ["AutoCarver.discretizers.utils.base_discretizers", "AutoCarver.discretizers.utils.quantitative_discretizers", "AutoCarver.discretizers.utils.type_discretizers"]
 
 
-UNIVERSE = ["f", "g", "q"]
+UNIVERSE = ["q", "i1", "i2"]  # names whose relative order is permuted; other names keep their position after them
 
 
 class _Sched:
@@ -126,12 +126,18 @@ def make(cls, feats_quanti, feats_quali, params, n_jobs=1):
     return Discretizer(quantitative_features=feats_quanti, qualitative_features=feats_quali, copy=True, n_jobs=n_jobs, **p)
 
 
+QUANTI = ["f", "g"]
+QUALI = ["q", "n", "i1", "i2"]
+
+
 def h_indep(ctx, cls, n, n_nan, ypat, params, mode):
     X, xs = k_api.make_X(ctx, n, n_nan, companions=False)
     N = n + n_nan
     X["g"] = [float((i * 5) % 4) for i in range(N)]
     X["q"] = (["a", "b", "a", "c", "b", "a"] * 3)[:N]
     X["n"] = ([1, 2, 2, 3, 1, 3] * 3)[:N]  # numeric-valued qualitative feature (StringDiscretizer path)
+    X["i1"] = [f"id{i}" for i in range(N)]  # identifier-like columns: every modality rarer than min_freq
+    X["i2"] = [f"key{(i * 3) % 7}" for i in range(N)]
     y = pd.Series(list(ypat)[:N], index=X.index)
     _Sched.ctx, _Sched.n, _Sched.order = ctx, 0, None
     with rebound(ctx, ["R1", "R2"]):
@@ -142,47 +148,52 @@ def h_indep(ctx, cls, n, n_nan, ypat, params, mode):
             except AssertionError as e:
                 return "AssertionError"
 
-        ref = make(cls, ["f"], [], params)
-        s_ref = fit(ref, X)
-        kept_ref = s_ref == "ok" and "f" in ref.features
-        out_ref = list(ref.transform(X)["f"]) if kept_ref else None
+        # reference: every feature fitted ALONE
+        ref = {}
+        for ft in QUANTI + QUALI:
+            o = make(cls, [ft] if ft in QUANTI else [], [ft] if ft in QUALI else [], params)
+            st = fit(o, X)
+            kept = st == "ok" and ft in o.features
+            ref[ft] = dict(status=st, kept=kept, vo=o.values_orders.get(ft) if kept else None, out=list(o.transform(X)[ft]) if kept else None)
+        kept_ref = ref["f"]["kept"]
 
-        def compare(obj, status, frame, what):
+        def compare(obj, status, frame, what, feats):
             if status != "ok":
-                # the companions may make the whole fit fail only if fitting them alone fails too
-                alone = make(cls, ["g"], ["q", "n"], params)
-                st = fit(alone, X)
-                ctx.require(st != "ok" or s_ref != "ok", "C10.fit-fails-only-together", f"{what}: fit refused although each feature set fits alone")
+                ctx.require(any(ref[ft]["status"] != "ok" for ft in feats), "C10.fit-fails-only-together", f"{what}: fit refused although every feature fits alone")
                 return
-            ctx.require(s_ref == "ok", "C10.depends-on-other-features", f"{what}: f fits together with other features but is refused alone")
-            kept = "f" in obj.features
-            ctx.require(kept == kept_ref, "C10.depends-on-other-features", f"{what}: f kept={kept} but kept={kept_ref} when fitted alone")
-            if kept:
-                ctx.require(vo_equal(obj.values_orders["f"], ref.values_orders["f"]), "C10.depends-on-other-features",
-                            f"{what}: values_orders['f'] {dict(obj.values_orders['f'].content)!r} != alone {dict(ref.values_orders['f'].content)!r}")
-                ctx.require(col_equal(list(obj.transform(frame)["f"]), out_ref), "C10.depends-on-other-features", f"{what}: transform output of f differs from the one obtained alone")
+            ctx.require(all(ref[ft]["status"] == "ok" for ft in feats), "C10.depends-on-other-features", f"{what}: features fit together although one of them is refused alone")
+            out = obj.transform(frame)
+            for ft in feats:
+                kept = ft in obj.features
+                ctx.require(kept == ref[ft]["kept"], "C10.depends-on-other-features", f"{what}: {ft} kept={kept} but kept={ref[ft]['kept']} when fitted alone")
+                if kept:
+                    ctx.require(vo_equal(obj.values_orders[ft], ref[ft]["vo"]), "C10.depends-on-other-features",
+                                f"{what}: values_orders[{ft!r}] {dict(obj.values_orders[ft].content)!r} != alone {dict(ref[ft]['vo'].content)!r}")
+                    ctx.require(col_equal(list(out[ft]), ref[ft]["out"]), "C10.depends-on-other-features", f"{what}: transform output of {ft} differs from the one obtained alone")
+                else:
+                    ctx.require(col_equal(list(out[ft]), list(frame[ft])), "C10.dropped-feature-touched", f"{what}: dropped feature {ft} was modified by transform")
 
         if mode == "together":
-            o = make(cls, ["f", "g"], ["q", "n"], params)
-            compare(o, fit(o, X), X, "f fitted with g, q, n")
-            o2 = make(cls, ["g", "f"], ["n", "q"], params)
-            X2 = X[["n", "q", "g", "f"]]
-            compare(o2, fit(o2, X2), X2, "feature lists and DataFrame columns reordered")
+            o = make(cls, list(QUANTI), list(QUALI), params)
+            compare(o, fit(o, X), X, "all features together", QUANTI + QUALI)
+            o2 = make(cls, QUANTI[::-1], QUALI[::-1], params)
+            X2 = X[(QUALI + QUANTI)[::-1]]
+            compare(o2, fit(o2, X2), X2, "feature lists and DataFrame columns reordered", QUANTI + QUALI)
         elif mode == "hash":
-            # every iteration order of list(set(features)) (= every hash seed)
+            # every relative iteration order of three of the names in list(set(features)) (= hash seeds)
             extra = [(m, "set", PSet) for m in MODS_SET]
             with rebound(ctx, [], extra=extra):
-                o = make(cls, ["f", "g"], ["q"], params)
+                o = make(cls, ["f"], ["q", "i1", "i2"], params)
                 st = fit(o, X)
-            compare(o, st, X, "solver-chosen iteration order of set(features)")
+            compare(o, st, X, "solver-chosen iteration order of set(features)", ["f", "q", "i1", "i2"])
         elif mode == "pool":
             extra = [(m, "Pool", FakePool) for m in MODS_POOL]
             with rebound(ctx, [], extra=extra):
                 nj = 2 + ctx.choose("n_jobs", 2)
-                o = make(cls, ["f", "g"], ["q", "n"], params, n_jobs=nj)
+                o = make(cls, list(QUANTI), ["q", "n"], params, n_jobs=nj)
                 st = fit(o, X)
                 if st == "ok":
-                    seq = make(cls, ["f", "g"], ["q", "n"], params, n_jobs=1)
+                    seq = make(cls, list(QUANTI), ["q", "n"], params, n_jobs=1)
                     fit(seq, X)
                     ctx.require(sorted(o.features) == sorted(seq.features), "C10.parallel-differs", f"n_jobs={nj}: kept features {sorted(o.features)} vs sequential {sorted(seq.features)}")
                     for ft in seq.features:
@@ -190,8 +201,8 @@ def h_indep(ctx, cls, n, n_nan, ypat, params, mode):
                     outp, outs = o.transform(X), seq.transform(X)
                     for c in outs.columns:
                         ctx.require(col_equal(list(outp[c]), list(outs[c])), "C10.parallel-differs", f"n_jobs={nj}: transform column {c} differs from n_jobs=1")
-                compare(o, st, X, f"n_jobs>1 with a solver-chosen completion order")
-    return dict(counters={"ok": 1, "kept": int(kept_ref)}, sample=dict(cls=cls, mode=mode, ypat=ypat, kept=kept_ref), result=dict(kept=kept_ref, status=s_ref))
+                compare(o, st, X, f"n_jobs>1 with a solver-chosen completion order", QUANTI + ["q", "n"])
+    return dict(counters={"ok": 1, "kept": int(kept_ref)}, sample=dict(cls=cls, mode=mode, ypat=ypat, kept={k_: v["kept"] for k_, v in ref.items()}), result=dict(kept={k_: v["kept"] for k_, v in ref.items()}))
 
 
 def obligations(tier):
